@@ -327,7 +327,17 @@ class SharedModel:
                     if not is_callee:
                         cal = by_name.get(node.attr) or self.repo.method(self.cname, node.attr)
                         if cal is not None and cal in self.funcs and cal.parent is None and not any("property" in d for d in cal.decorators):
-                            self.callers.setdefault(cal.where, []).append((fi, node, self.in_locked_region(fi, node)))
+                            # the method value may be bound to a local first and called later: the call sites of that local count
+                            local = None
+                            for st2 in walk_no_nested(fi.node):
+                                if isinstance(st2, ast.Assign) and len(st2.targets) == 1 and isinstance(st2.targets[0], ast.Name) and any(sub is node for sub in ast.walk(st2.value)):
+                                    local = st2.targets[0].id
+                            call_sites = [n2 for n2 in walk_no_nested(fi.node) if isinstance(n2, ast.Call) and isinstance(n2.func, ast.Name) and n2.func.id == local] if local else []
+                            if call_sites:
+                                for cs in call_sites:
+                                    self.callers.setdefault(cal.where, []).append((fi, cs, self.in_locked_region(fi, cs)))
+                            else:
+                                self.callers.setdefault(cal.where, []).append((fi, node, self.in_locked_region(fi, node)))
                 # a nested function passed around (e.g. as a callback) counts as called where it is referenced
                 if isinstance(node, ast.Name) and isinstance(node.ctx, ast.Load) and node.id in fi.nested:
                     parent_call = None
